@@ -1,8 +1,8 @@
 // Native bounded stand-in for C05's jet clause ("arithmetic, logic and comparison jets computing their specified functions")
-// (attached as `#[cfg(test)] mod` to a verbatim copy of the working tree). For 22 families of Core and Elements jets at 8, 16 and 32
-// bits it runs the jet through the real Bit Machine (program = the jet node, dispatched through the generated jet tables
+// (attached as `#[cfg(test)] mod` to a verbatim copy of the working tree). For 22 families of Core and Elements jets at 8, 16, 32 and
+// 64 bits it runs the jet through the real Bit Machine (program = the jet node, dispatched through the generated jet tables
 // and the FFI wrappers) on edge and pseudo-random operands and compares the output with a reference computed here in
-// plain integer arithmetic. BOUNDED (2 x 66 jets, ~40 operand pairs each); never counted as proved. What it is for: a jet
+// plain integer arithmetic. BOUNDED (2 x 88 jets, ~40 operand pairs each); never counted as proved. What it is for: a jet
 // wired to the wrong C function or with the wrong source / target type in src/jet/init/{core,elements}.rs.
 use crate::jet::elements::ElementsEnv;
 use crate::jet::{Core, CoreEnv, Elements, Jet, JetEnvironment};
@@ -10,12 +10,13 @@ use crate::node::{ConstructNode, CoreConstructible};
 use crate::{types, BitMachine, Value};
 use std::sync::Arc;
 
-fn word(bits: u32, x: u64) -> Value {
+fn word(bits: u32, x: u128) -> Value {
     match bits {
         8 => Value::u8(x as u8),
         16 => Value::u16(x as u16),
         32 => Value::u32(x as u32),
-        64 => Value::u64(x),
+        64 => Value::u64(x as u64),
+        128 => Value::u128(x),
         _ => unreachable!(),
     }
 }
@@ -61,13 +62,13 @@ fn arity(op: Op) -> (usize, bool) {
 }
 
 /// the specified function, on operands of `bits` bits
-fn reference(op: Op, bits: u32, c: bool, a: u64, b: u64) -> Value {
-    let mask: u64 = (1u64 << bits) - 1;
+fn reference(op: Op, bits: u32, c: bool, a: u128, b: u128) -> Value {
+    let mask: u128 = (1u128 << bits) - 1;
     match op {
         Op::Add => Value::product(bit(a + b > mask), word(bits, (a + b) & mask)),
-        Op::FullAdd => Value::product(bit(a + b + c as u64 > mask), word(bits, (a + b + c as u64) & mask)),
+        Op::FullAdd => Value::product(bit(a + b + c as u128 > mask), word(bits, (a + b + c as u128) & mask)),
         Op::Subtract => Value::product(bit(a < b), word(bits, a.wrapping_sub(b) & mask)),
-        Op::FullSubtract => Value::product(bit(a < b + c as u64), word(bits, a.wrapping_sub(b).wrapping_sub(c as u64) & mask)),
+        Op::FullSubtract => Value::product(bit(a < b + c as u128), word(bits, a.wrapping_sub(b).wrapping_sub(c as u128) & mask)),
         Op::Multiply => word(2 * bits, a * b),
         Op::Lt => bit(a < b),
         Op::Le => bit(a <= b),
@@ -90,36 +91,36 @@ fn reference(op: Op, bits: u32, c: bool, a: u64, b: u64) -> Value {
 }
 
 macro_rules! jets {
-    ($fam:ident; $($op:ident: $j8:ident $j16:ident $j32:ident;)*) => {
-        vec![$((Op::$op, [$fam::$j8, $fam::$j16, $fam::$j32]),)*]
+    ($fam:ident; $($op:ident: $j8:ident $j16:ident $j32:ident $j64:ident;)*) => {
+        vec![$((Op::$op, [$fam::$j8, $fam::$j16, $fam::$j32, $fam::$j64]),)*]
     };
 }
 
 macro_rules! families {
     ($fam:ident) => {
         jets! { $fam;
-        Add: Add8 Add16 Add32;
-        Subtract: Subtract8 Subtract16 Subtract32;
-        Multiply: Multiply8 Multiply16 Multiply32;
-        Lt: Lt8 Lt16 Lt32;
-        Le: Le8 Le16 Le32;
-        Eq: Eq8 Eq16 Eq32;
-        Max: Max8 Max16 Max32;
-        Min: Min8 Min16 Min32;
-        And: And8 And16 And32;
-        Or: Or8 Or16 Or32;
-        Xor: Xor8 Xor16 Xor32;
-        Complement: Complement8 Complement16 Complement32;
-        Increment: Increment8 Increment16 Increment32;
-        Decrement: Decrement8 Decrement16 Decrement32;
-        IsZero: IsZero8 IsZero16 IsZero32;
-        IsOne: IsOne8 IsOne16 IsOne32;
-        All: All8 All16 All32;
-        Some_: Some8 Some16 Some32;
-        Low: Low8 Low16 Low32;
-        High: High8 High16 High32;
-        FullAdd: FullAdd8 FullAdd16 FullAdd32;
-        FullSubtract: FullSubtract8 FullSubtract16 FullSubtract32;
+        Add: Add8 Add16 Add32 Add64;
+        Subtract: Subtract8 Subtract16 Subtract32 Subtract64;
+        Multiply: Multiply8 Multiply16 Multiply32 Multiply64;
+        Lt: Lt8 Lt16 Lt32 Lt64;
+        Le: Le8 Le16 Le32 Le64;
+        Eq: Eq8 Eq16 Eq32 Eq64;
+        Max: Max8 Max16 Max32 Max64;
+        Min: Min8 Min16 Min32 Min64;
+        And: And8 And16 And32 And64;
+        Or: Or8 Or16 Or32 Or64;
+        Xor: Xor8 Xor16 Xor32 Xor64;
+        Complement: Complement8 Complement16 Complement32 Complement64;
+        Increment: Increment8 Increment16 Increment32 Increment64;
+        Decrement: Decrement8 Decrement16 Decrement32 Decrement64;
+        IsZero: IsZero8 IsZero16 IsZero32 IsZero64;
+        IsOne: IsOne8 IsOne16 IsOne32 IsOne64;
+        All: All8 All16 All32 All64;
+        Some_: Some8 Some16 Some32 Some64;
+        Low: Low8 Low16 Low32 Low64;
+        High: High8 High16 High32 High64;
+        FullAdd: FullAdd8 FullAdd16 FullAdd32 FullAdd64;
+        FullSubtract: FullSubtract8 FullSubtract16 FullSubtract32 FullSubtract64;
         }
     };
 }
@@ -128,7 +129,7 @@ macro_rules! families {
 fn c05_jet_semantics_replay() {
     let mut fails: Vec<String> = vec![];
     let mut tested = 0usize;
-    // the same 66 jets exist in the Core and in the Elements family, each with its own generated tables
+    // the same 88 jets exist in the Core and in the Elements family, each with its own generated tables
     run_family::<Core, CoreEnv>("core", &families!(Core), &CoreEnv::new(), &mut fails, &mut tested);
     if fails.is_empty() {
         run_family::<Elements, _>("elements", &families!(Elements), &ElementsEnv::dummy(), &mut fails, &mut tested);
@@ -137,24 +138,24 @@ fn c05_jet_semantics_replay() {
     for f in &fails {
         println!("CEX: {}", f);
     }
-    assert!(!fails.is_empty() || tested > 5000, "the enumeration shrank");
+    assert!(!fails.is_empty() || tested > 7000, "the enumeration shrank");
     assert!(fails.is_empty(), "{} failing jet execution(s)", fails.len());
 }
 
-fn run_family<J: Jet, E: JetEnvironment>(family: &str, table: &[(Op, [J; 3])], env: &E, fails: &mut Vec<String>, tested: &mut usize) {
+fn run_family<J: Jet, E: JetEnvironment>(family: &str, table: &[(Op, [J; 4])], env: &E, fails: &mut Vec<String>, tested: &mut usize) {
     'outer: for (op, js) in table {
         for (k, jet) in js.iter().enumerate() {
             let bits = 8u32 << k;
-            let mask: u64 = (1u64 << bits) - 1;
+            let mask: u128 = (1u128 << bits) - 1;
             // operands: the edges and a fixed pseudo-random sample
-            let mut xs: Vec<u64> = vec![0, 1, 2, mask, mask - 1, mask >> 1, (mask >> 1) + 1, 0x5555_5555 & mask, 0xaaaa_aaaa & mask];
+            let mut xs: Vec<u128> = vec![0, 1, 2, mask, mask - 1, mask >> 1, (mask >> 1) + 1, 0x5555_5555_5555_5555 & mask, 0xaaaa_aaaa_aaaa_aaaa & mask];
             let mut state: u64 = 0x9e37_79b9_7f4a_7c15 ^ (bits as u64);
             for _ in 0..4 {
                 state = state.wrapping_mul(6364136223846793005).wrapping_add(1442695040888963407);
-                xs.push((state >> 17) & mask);
+                xs.push(((state as u128) << 23 ^ (state as u128 >> 17)) & mask);
             }
             let (n_ops, carry) = arity(*op);
-            let pairs: Vec<(u64, u64)> = match n_ops {
+            let pairs: Vec<(u128, u128)> = match n_ops {
                 0 => vec![(0, 0)],
                 1 => xs.iter().map(|&a| (a, 0)).collect(),
                 _ => {
